@@ -179,6 +179,9 @@ def convert_case(ctx, d, rng, case, k, prop):
                 problems.append(('C13.guard', 'conversion into the source directory (named %s) did not raise' % alias))
             except IOError:
                 pass
+            except Exception as e:         # not refused: the conversion went ahead and failed somewhere later
+                problems.append(('C13.guard', 'conversion into the source directory (named %s) was not refused with '
+                                 'IOError: it went ahead and raised %s: %s' % (alias, type(e).__name__, str(e)[:120])))
             if dir_digest(src) != before:
                 problems.append(('C13.guard', 'the refused conversion (target named %s) wrote into the source directory' % alias))
                 break
